@@ -38,6 +38,7 @@ THEOREMS = [
     "IrVerif.Clone.C13_raises_iff_inputs",
     "IrVerif.Clone.C13_clone_pure",
     "IrVerif.Clone.C13_clone_pure_model",
+    "IrVerif.Clone.C13_failed_clone_no_residue",
     "IrVerif.Clone.C13_frame",
     "IrVerif.Clone.C13_frame_weak",
     "IrVerif.Clone.C13_frame_clone_edited",
@@ -70,16 +71,30 @@ ASSUMPTIONS = [
     "nodes named None are modelled (clone_graph keeps them anonymous since the fix of D111)",
     "frame theorems quantify over the edit alphabet IrVerif.Clone.Edit (23 editing calls, listed in Model/Clone.lean) with "
     "arguments outside the protected region; other editing calls are covered by the oracle only as far as generated",
-    "C13_frame_orig_edited assumes the heap before cloning has no dangling pointers (wellFormed); checked on every "
-    "abstracted real heap by the driver",
+    "the frame theorems assume the heap before cloning has no dangling pointers and every const_value is a tensor "
+    "object (wellFormed), C13_failed_clone_no_residue that usage records name existing cells (usesBounded); both are "
+    "checked on every abstracted real heap by the driver",
+    "tensor objects are shared between clone and original by design: the frame theorems protect every pre-existing "
+    "cell EXCEPT the tensor cells (Protected); Value.name= writes through to the shared tensor's name (known finding "
+    "D113); a graph-free Attr object is shared too and its in-place state (meta) is outside the model (oracle-only "
+    "edit attrMetaSet, known finding D114)",
+    "graph-level progress (a sorted, well-scoped graph clones successfully) is NOT proved: C13_raises_iff_inputs "
+    "characterises exactly when the node-input loop raises; that the model returns ok is established per run by the "
+    "correspondence of outcomes on every generated case and by the non-vacuity examples",
+    "C13_faithful* relate values by observation (VInfo), references by 'same reference or equally observed value'; "
+    "an identity-level bijection on value ids is not proved (the correspondence check compares wiring exactly, up to "
+    "renaming, on every generated case); sharding references are covered by the simulation (same payload, same or "
+    "equally observed value) and by the oracle, not by a closedness theorem",
     "node-input closedness: allow_outer_scope_values=False -> every input is a value of the clone (C13_closed); "
     "True -> every input is a value of the clone or a pre-existing value not defined at the top level of the graph "
     "being cloned, for the root and for every nested clone_graph call (C13_closed_outer / cloneGraph_cov); a value "
     "defined only inside a sibling or deeper subgraph and used outside its scope (ill-scoped IR) is not excluded",
     "the model follows the fixed cloner (D32 type copy, D33 pending-outputs check, D111 anonymous nodes, D112 detach "
     "of the nodes of an abandoned clone): heaps are compared in full also after a raising clone",
-    "serGraph (C13_faithful_serialize) is a model of what the serializer reads, not compared field by field with serde "
-    "(properties C02/C03); the run reports on how many abstracted real heaps it is defined",
+    "serGraph (C13_faithful_observe) is this check's own observation function, NOT the serde model of C02/C03 and not "
+    "compared with serde field by field; graph/view level only; where it is undefined on a heap serde accepts, an "
+    "inconsistent container must explain it (else disagreement); where serde raises on a heap it is defined on, the "
+    "exception class is reported",
 ]
 
 import onnx_ir as ir  # noqa: E402
